@@ -49,6 +49,8 @@ def generate(seed, tier, index):
         rng.shuffle(sides)
     cfg = {'nslots': nslots, 'sides': sides, 'synth': True, 'suppress': True,
            'dialect': rng.choice(P.PRESET_NAMES)}
+    if tier == 'thorough' and index < 24:
+        cfg['calibrate_real_gdb'] = True     # stub fidelity: the same hit sequence as a C program under the real gdb
     return {'prop': ID, 'seed': seed, 'config': cfg, 'intents': intents}
 
 
@@ -195,6 +197,12 @@ def execute(sc):
                             cl.brief(), j, g, l, line, why))
             if (lg['name'], lg['sent'], lg['obj_id']) != (got['name'], got['sent'], got['obj_id']):
                 V.add('C09/log-disagreement', 'header', 'GDB mode header %r vs log mode %r for %r' % (got, lg, line))
+    if sc['config'].get('calibrate_real_gdb') and not V.list:
+        from .. import realgdb
+        problems = realgdb.calibrate(sim)
+        V.bump('calibration_real_gdb_sessions')
+        if problems:
+            raise rig.HarnessError('fake gdb disagrees with the real gdb: ' + '; '.join(problems)[:3000])
     if len(sides_seen) > 1:
         nontrivial = True
         V.bump('probe_both_sides_in_one_session')
